@@ -165,7 +165,7 @@ impl Check for C06 {
         let mut wl = Rng::derive(seed, "workload");
         let mut ar = Rng::derive(seed, "arena");
         let hash_key = Rng::derive(seed, "hash").next_u64();
-        let gcfg = GenCfg::draw(&mut wl);
+        let gcfg = GenCfg { large: true, ..GenCfg::draw(&mut wl) };
         let spec = gen_spec(&mut wl, &gcfg, 0);
         // a quarter of the configurations are reached through a seeded call history instead of the
         // canonical one
